@@ -149,6 +149,11 @@ class Summariser:
                         continue
                     f = must.switch_fact(bb, {s})
                     new = normalise_atom(must, term, t.get("dty"), f[2], f[3], t["op"])
+                    from .must import canon_okness, canon_arith
+                    for a_ in list(new):
+                        for b_ in (canon_okness(a_), canon_arith(a_)):
+                            if b_ is not None and b_ not in new:
+                                new.append(b_)
                     if self._contradiction(sym, new, atoms):
                         continue
                     stack.append((s, path + (s,), atoms + tuple(new)))
